@@ -33,15 +33,31 @@ def qspec():
 def layout(exprs=False):
     ex = st.lists(st.tuples(small(10), st.integers(0, 5)).map(list), max_size=4) if exprs else st.just([])
     bi = st.fixed_dictionaries({"sec": st.one_of(st.integers(0, 2), st.integers(0, 2), st.integers(0, 2), st.integers(0, 2), st.just(-1)), "addr": addr(), "size": small(16), "exprs": ex})
-    blk = st.fixed_dictionaries({"bi": st.one_of(st.integers(0, 3), st.integers(0, 3), st.integers(0, 3), st.integers(0, 3), st.just(-1)), "off": small(), "size": small(8), "code": st.booleans()})
-    return st.fixed_dictionaries(
+    blk = st.fixed_dictionaries({"bi": st.one_of(st.integers(0, 5), st.integers(0, 5), st.integers(0, 5), st.integers(0, 5), st.just(-1)), "off": small(), "size": small(8), "code": st.booleans()})
+    @st.composite
+    def lay(draw):
+        d = draw(base)
+        if draw(st.sampled_from([False, False, True])):
+            # dense: everything hangs under section 0 / intervals 0-1, so that the
+            # indexes are large enough for several pending edits to be applied
+            # incrementally (lazyintervaltree.py rebuilds once edits >= members)
+            for b in d["bi"]:
+                b["sec"] = 0
+            for b in d["blk"]:
+                b["bi"] = b["bi"] % 2 if b["bi"] >= 0 else 0
+            d["sec"][0] = 0
+            d["mod"][0] = 1
+        return d
+
+    base = st.fixed_dictionaries(
         {
             "mod": st.lists(st.sampled_from([1, 1, 1, 1, 1, 1, 1, 0]), min_size=2, max_size=2),
             "sec": st.lists(st.one_of(st.integers(0, 1), st.integers(0, 1), st.integers(0, 1), st.integers(0, 1), st.integers(0, 1), st.just(-1)), min_size=3, max_size=3),
-            "bi": st.lists(bi, min_size=4, max_size=4),
-            "blk": st.lists(blk, min_size=0, max_size=6),
+            "bi": st.lists(bi, min_size=6, max_size=6),
+            "blk": st.lists(blk, min_size=0, max_size=12),
         }
     )
+    return lay()
 
 
 def edit_ops(blocks=True, intervals=True, structure=True, symexpr=False, saveload=True):
@@ -50,12 +66,16 @@ def edit_ops(blocks=True, intervals=True, structure=True, symexpr=False, saveloa
     if blocks:
         ops["blk_off"] = progs.op("blk_off", k=idx, v=small())
         ops["blk_size"] = progs.op("blk_size", k=idx, v=small(8))
-        ops["blk_move"] = progs.op("blk_move", k=idx, p=st.one_of(st.integers(0, 3), st.integers(0, 3), st.just(-1)), how=st.integers(0, 2))
-        ops["blk_new"] = progs.op("blk_new", p=st.integers(0, 3), off=small(), size=small(8), code=st.booleans())
+        ops["blk_off2"] = progs.op("blk_off2", k=idx, v=small(), w=small())
+        ops["blk_move"] = progs.op("blk_move", k=idx, p=st.one_of(st.integers(0, 5), st.integers(0, 5), st.just(-1)), how=st.integers(0, 2))
+        ops["blk_bulk"] = progs.op("blk_bulk", p=st.integers(0, 5), ks=st.lists(st.integers(0, 15), min_size=2, max_size=8), how=st.integers(0, 1))
+        ops["blk_new"] = progs.op("blk_new", p=st.integers(0, 5), off=small(), size=small(8), code=st.booleans())
     if intervals:
         ops["bi_addr"] = progs.op("bi_addr", k=idx, v=addr())
         ops["bi_size"] = progs.op("bi_size", k=idx, v=small(16))
+        ops["bi_addr2"] = progs.op("bi_addr2", k=idx, v=addr(), w=addr())
     if structure:
+        ops["bi_bulk"] = progs.op("bi_bulk", p=st.integers(0, 2), ks=st.lists(st.integers(0, 5), min_size=2, max_size=5), how=st.integers(0, 1))
         ops["bi_move"] = progs.op("bi_move", k=idx, p=st.one_of(st.integers(0, 2), st.integers(0, 2), st.integers(0, 2), st.just(-1)), how=st.integers(0, 1))
         ops["sec_move"] = progs.op("sec_move", k=idx, p=st.one_of(st.integers(0, 1), st.integers(0, 1), st.integers(0, 1), st.just(-1)), how=st.integers(0, 1))
         ops["mod_move"] = progs.op("mod_move", k=idx, v=st.sampled_from([1, 1, 1, 0]), how=st.integers(0, 1))
